@@ -283,6 +283,8 @@ func Run(tier string, seed int64, outDir string) *common.Meta {
 
 	// ---------- 3. end-to-end runs of both binaries ----------
 	nRuns := endToEnd(meta, tier, rng, outDir)
+	nRuns += flagsStage(meta, outDir)
+	nRuns += plantedStage(meta, tier, common.NewRand(seed, "c16-planted"), outDir)
 
 	meta.Evaluations = 2*len(cases) + nRuns
 	meta.Distinct = len(distinct)
@@ -366,6 +368,8 @@ func endToEnd(meta *common.Meta, tier string, rng interface{ Intn(int) int }, ou
 		{"gen.go", "// Code generated by tool. DO NOT EDIT.\n\n" + warnSrc("p", "Gen")},
 		{"gen_test.go", "// Code generated by tool. DO NOT EDIT.\n\n" + warnSrc("p", "GenTest")},
 		{"clean.go", "package p\n\nfunc Clean() int { return 1 }\n"},
+		// findings that depend on the target version (octal literal >= 1.13, time API >= 1.17) and on parameters
+		{"ver.go", "package p\n\nimport \"time\"\n\nconst Perm = 0755\n\nfunc V(t time.Time) int64 { return t.Unix() / 1000 }\n\nfunc Many() (int, int, int, int, int, int) { return 1, 2, 3, 4, 5, 6 }\n"},
 		// a diagnostic whose text quotes several lines of code (newlines, tabs, runs of blanks inside a string)
 		{"ml.go", "package p\n\nfunc run(f func() error) error { return f() }\n\nfunc ML(n int) error {\n\tvar err error\n\tif err = run(func() error {\n\t\tif n > 0 {\n\t\t\tprintln(\"a   b\")\n\t\t\treturn nil\n\t\t}\n\t\treturn nil\n\t}); err != nil {\n\t\treturn err\n\t}\n\treturn err\n}\n"},
 		{"sub/b.go", warnSrc("sub", "B")},
@@ -622,6 +626,7 @@ Definition cases : list ecase := [
 	common.WriteFile(filepath.Join(outDir, "cases_c16_e2e.index.txt"), strings.Join(idxLines, "\n")+"\n")
 	meta.CaseFiles = append(meta.CaseFiles, "cases_c16_e2e.v")
 	runs += systemCases(meta, outDir, mod, env0)
+	runs += systemCtxCases(meta, outDir, mod, env0)
 	meta.Distribution["end_to_end_runs"] = runs
 	return runs
 }
